@@ -5,7 +5,7 @@
    (latest entry with key <= e); it is what the share query reports (C13_share_query_reports_epoch_weight) and what claims
    use (C13_claim_uses_epoch_weight).  Hypothesis op_wf_w: the amounts of position operations are unsigned.             *)
 From WW Require Import Prim Params Incentive.
-From WW.Proofs Require Import IncentiveLedger IncentiveFlows IncentiveInv IncentiveC12 IncentiveWeight IncentiveWeights IncentiveC13.
+From WW.Proofs Require Import IncentiveLedger IncentiveFlows IncentiveInv IncentiveC12 IncentiveWeight IncentiveWeights IncentiveC13 IncentiveLate.
 
 (* ---- the weight function ------------------------------------------------------------------------------------------------- *)
 Theorem C13_weight_ge_amount : forall d a w, calculate_weight d a = Ok w -> a <= w.
@@ -82,6 +82,19 @@ Theorem C13_claim_eq_query : forall c h e b u st',
   get_rewards v_fixed st u = Ok (payouts (s_flows st) (s_flows st')).
 Proof. exact claim_eq_query_reachable. Qed.
 
+(* Known class `first_claim_beyond_epoch_cap` (known_findings.d/C13.json): the hypothesis of C13_claim_eq_query counts the epochs the
+   claim LOOP walks (from the flow's first claimable epoch, which for an address that never claimed is the flow's start epoch), not
+   the epochs in which the address has something to claim. An address whose first weight starts more than CLAIM_CAP epochs after a
+   flow's start therefore falls outside the theorem although it has only a few unclaimed epochs: the query reports rewards, the claim
+   succeeds, pays nothing and marks the epochs claimed. Witness (repaired code v_fixed): *)
+Theorem C13_refuted_first_claim_beyond_epoch_cap :
+  let st := run_history v_fixed c13 (init_state 1 b0) h_late in
+  aget 2 (s_last st) = None /\ eff (s_awh st 2) (s_epoch st) = 1000 /\ eff (s_awh st 2) (s_epoch st - 3) = 0 /\
+  get_rewards v_fixed st 2 = Ok [(1, 150000)] /\
+  exists st', step v_fixed c13 st (Claim 2) = Ok st' /\ payouts (s_flows st) (s_flows st') = [] /\
+              aget 2 (s_last st') = Some (s_epoch st).
+Proof. exact first_claim_beyond_cap_refuted. Qed.
+
 (* ---- the defects of the code as found ---------------------------------------------------------------------------------------- *)
 Theorem C13_refuted_weight_desync :
   let st := run_history v_no_clamp c13 (init_state 1 b0) h_desync in
@@ -150,6 +163,7 @@ Print Assumptions C13_claim_loop_start.
 Print Assumptions C13_claim_le_emission.
 Print Assumptions C13_second_claim_nothing.
 Print Assumptions C13_claim_eq_query.
+Print Assumptions C13_refuted_first_claim_beyond_epoch_cap.
 Print Assumptions C13_refuted_weight_desync.
 Print Assumptions C13_refuted_close_before_snapshot.
 Print Assumptions C13_refuted_claim_rewrites_weight.
